@@ -15,8 +15,11 @@ WRAP = "vWrapQ"
 SENTINEL = -7046029254386353131  # 10-byte varint
 
 
-def wrap_schemas(js):
-    w = {"type": "record", "name": WRAP, "fields": [{"name": "skipme", "type": js}, {"name": "sentinel", "type": "long"}]}
+def wrap_schemas(js, last=False):
+    fields = [{"name": "skipme", "type": js}, {"name": "sentinel", "type": "long"}]
+    if last:
+        fields.reverse()  # the skipped value is the last thing on the stream: nothing after it can hit EOF for it
+    w = {"type": "record", "name": WRAP, "fields": fields}
     r = {"type": "record", "name": WRAP, "fields": [{"name": "sentinel", "type": "long"}]}
     return w, r
 
@@ -206,9 +209,12 @@ class C03(Check):
             raise HarnessError("reference decoder did not consume the case encoding")
         schema = bincase.fa_schema(fastavro, case)
         w, r = wrap_schemas(js)
+        wl, rl = wrap_schemas(js, last=True)
         if case.get("parsed"):
             w = guard("parse-valid-schema", fastavro.parse_schema, w)
             r = guard("parse-valid-schema", fastavro.parse_schema, r)
+            wl = guard("parse-valid-schema", fastavro.parse_schema, wl)
+            rl = guard("parse-valid-schema", fastavro.parse_schema, rl)
         tail = _varint(SENTINEL)
 
         # ---- positive: read path
@@ -222,6 +228,9 @@ class C03(Check):
         labels.add("skip-path")
         if got != {"sentinel": SENTINEL} or p != len(enc) + len(tail):
             raise Violation("skip-mismatch", f"after skipping the value got {got!r:.100} at {p}/{len(enc)+len(tail)}; schema={js!r} enc={enc[:80].hex()}")
+        got, p = guard("skip-valid-encoding", self._skip, wl, rl, tail + enc)
+        if got != {"sentinel": SENTINEL} or p != len(enc) + len(tail):
+            raise Violation("skip-mismatch:last", f"skipping the value as the last field got {got!r:.100} at {p}/{len(enc)+len(tail)}; schema={js!r} enc={enc[:80].hex()}")
         # layout labels (recorded by the generator; fixed cases are labelled by re-encoding)
         lay = case.get("layout")
         if lay is None:
@@ -243,6 +252,12 @@ class C03(Check):
                     raise Violation(
                         "bad-index-accepted:read:" + ("negative" if new < 0 else "high") + ":" + t,
                         f"{'union' if t=='u' else 'enum'} index {new} (valid 0..{lim-1}) at offset {off} returned {o[1][0]!r:.120}; schema={js!r} enc={mutated[:80].hex()}",
+                    )
+                o2 = outcome(self._skip, wl, rl, tail + mutated)
+                if o2[0] == "ok":
+                    raise Violation(
+                        "bad-index-accepted:skip-last:" + ("negative" if new < 0 else "high") + ":" + t,
+                        f"{'union' if t=='u' else 'enum'} index {new} (valid 0..{lim-1}) at offset {off} skipped silently as last field; schema={js!r} enc={mutated[:80].hex()}",
                     )
                 o = outcome(self._skip, w, r, mutated + tail)
                 if o[0] == "ok":
@@ -266,6 +281,9 @@ class C03(Check):
             o = outcome(self._skip, w, r, enc[:k])
             if o[0] == "ok":
                 raise Violation("prefix-accepted:skip", f"prefix of {k}/{n} bytes skipped and returned {o[1][0]!r:.120}; schema={js!r} enc={enc[:80].hex()}")
+            o = outcome(self._skip, wl, rl, tail + enc[:k])
+            if o[0] == "ok":
+                raise Violation("prefix-accepted:skip-last", f"value skipped as the last field: prefix of {k}/{n} bytes accepted, returned {o[1][0]!r:.120}; schema={js!r} enc={enc[:80].hex()}")
         return labels
 
     def _layout_labels(self, node, table, enc, labels):
